@@ -313,7 +313,7 @@ InvWhy(fn, k, r, rt) ==
        prescribed size, and is symmetric under exchanging the operands;
    (b) the reference kernels satisfy the range laws on the whole lattice window.          *)
 CONSTANTS Window, Quanta
-WindowQ == (0 - 12)..12
+WindowQ == (0 - 8)..8
 QuantaQ == {0, 1, 2, 3, 4, 8, 12}
 WindowT == (0 - 32)..32
 QuantaT == {0, 1, 2, 3, 4, 5, 8, 12, 16, 20}
